@@ -14,12 +14,16 @@ fn run_n<const N: usize>(case: &Case) -> Vec<i64> {
     let unique = OgreUnique::new(|slot: &mut u32| *slot = 4242, a).expect("alloc");
     let first: OgreArc<u32, Alloc<N>> = unique.into_ogre_arc();
     let mut all = vec![];
-    unsafe { first.increment_references(total as u32 - 1); }
-    for _ in 1..total { all.push(unsafe { first.raw_copy() }); }
+    // shared=1: the first handle is owned by no thread - every thread may borrow it (`sclone` clones it, `scount` reads the count through
+    // it): possibly the sole handle, shared by reference
+    let shared_mode = case.get("shared", 0) == 1;
+    let extra = if shared_mode { total } else { total - 1 };
+    if extra > 0 { unsafe { first.increment_references(extra as u32); } }
+    for _ in 0..extra { all.push(unsafe { first.raw_copy() }); }
     let mut locs = LocMap::new();
     locs.cell(first.verif_count_addr(), 0);
     locs.cell(0, -1); locs.cell(1, 1);
-    all.push(first);
+    let shared: Option<&'static OgreArc<u32, Alloc<N>>> = if shared_mode { Some(Box::leak(Box::new(first))) } else { all.push(first); None };
     let fl = a.verif_free_list();
     let (addrs, slot_size) = fl.verif_addrs();
     locs.cell(addrs[0], 500); locs.cell(addrs[1], 501); locs.cell(addrs[2], 504); locs.array(addrs[3], slot_size, N, 600);
@@ -31,6 +35,8 @@ fn run_n<const N: usize>(case: &Case) -> Vec<i64> {
         let mut mine: Vec<OgreArc<u32, Alloc<N>>> = all.split_off(all.len() - n);
         handles.push(spawn_worker(tid, move || {
             for op in prog {
+                if op.name == "sclone" { if let Some(sh) = shared { let c = sh.clone(); mine.push(c); ret(tid, 50, 0, 0); continue } }
+                if op.name == "scount" { if let Some(sh) = shared { ret(tid, 52, sh.references_count() as i64, 0); continue } }
                 if mine.is_empty() { verif::yield_point("yield", 1); ret(tid, 54, 0, 0); continue }
                 match op.name.as_str() {
                     "clone" => { let c = mine[0].clone(); mine.push(c); ret(tid, 50, 0, 0) },
